@@ -1,5 +1,6 @@
 (** * C13 - Vesting is path-independent, monotone, bounded and ends at exactly 100%. *)
 From LP Require Import Proofs.Tactics Proofs.LedgerBase Proofs.Vesting Proofs.Examples.
+From LP Require Import Proofs.Resume Proofs.Filter Proofs.Select Proofs.SetupGt Proofs.VestedCover Proofs.SetupVested.
 Open Scope N_scope.
 
 (** v2: a claim after the settlement leaves the winner with exactly
@@ -70,6 +71,30 @@ Theorem C13_v1_accept : forall e w a b c d p w',
 Proof. exact set_unlock_schedule_v1_ok. Qed.
 
 (** Non-vacuity: a three-milestone schedule is valid, 100 tokens vest 33 / 66 / 100. *)
+(** ** from deployment (guaranteed-tickets-v2): after any set-up history, the three stages interrupted
+    arbitrarily and any order of vesting claims and owner withdrawals, nobody has received more than
+    the entitlement, the stored schedule adds up to 100 %, and the next claim of a settled winner
+    brings the cumulative receipts to exactly floor(entitlement x unlocked % / 100 %) - monotone and
+    bounded by the entitlement - whatever the earlier claims were *)
+Theorem C13_from_deployment : forall (H : list N -> list N) w0 lf wf ef bf w1 ls ws es bs w2 sd rest ld wd ed bd w3 w4,
+  setup_reach_gt H Gt2 w0 ->
+  deposited (st w0) = true -> 0 < price (st w0) ->
+  after_interrupted filter_tickets lf w0 = Some wf -> filter_tickets ef bf wf = Ok (w1, 0) ->
+  seeds w1 = sd :: rest ->
+  after_interrupted (select_winners H) ls w1 = Some ws -> select_winners H es bs ws = Ok (w2, 0) ->
+  after_interrupted (distribute_guaranteed_tickets H true) ld w2 = Some wd ->
+  distribute_guaranteed_tickets H true ed bd wd = Ok (w3, 0) ->
+  vsteps true w3 w4 ->
+  (forall a, claimed_balance (st w4) a <= total_claimable (st w4) a) /\
+  sumN (map snd (schedule_v2 (st w4))) = MAX_PERCENTAGE /\
+  (forall e w5, claimed (st w4) (caller e) = true -> 0 < total_claimable (st w4) (caller e) ->
+     claim_vested true e w4 = Ok w5 ->
+     let total := total_claimable (st w4) (caller e) in
+     claimed_balance (st w5) (caller e) = vested_v2 (st w4) total (round e) /\
+     claimed_balance (st w4) (caller e) <= claimed_balance (st w5) (caller e) /\
+     claimed_balance (st w5) (caller e) <= total /\ total_claimable (st w5) (caller e) = total).
+Proof. exact deployed_vesting_v2. Qed.
+
 Example C13_nonvacuous :
   schedule_valid_v2 5 [(10, 3333); (20, 3333); (20, 3334)] = true /\
   map (fun r => 100 * pct_v2 [(10, 3333); (20, 3333); (20, 3334)] r / MAX_PERCENTAGE) [9; 10; 19; 20; 1000]
@@ -87,4 +112,5 @@ Print Assumptions C13_v1_pct_bounded.
 Print Assumptions C13_v1_pct_monotone.
 Print Assumptions C13_v1_bounded.
 Print Assumptions C13_v1_accept.
+Print Assumptions C13_from_deployment.
 Print Assumptions C13_nonvacuous.
